@@ -32,7 +32,7 @@ func init() {
 	vc.Register(&vc.Check{
 		ID:    "C34",
 		Level: "exploration",
-		Rule:  "schedules: all interleavings up to the preemption bound (quick 3, thorough 4) of 2-3 threads each running a program of 1-3 lifecycle calls from {Join, Leave, Shutdown} (\"sleep\" = 1.5 s of virtual time, so that calls also start after earlier ones completed) plus an observer thread reading State() every 400 ms of virtual time, on a real Serf node alone, with a peer known to Serf (so that the leave-intent broadcast wait is exercised), and with a silent peer known to memberlist (so that memberlist.Leave times out inside Serf.Leave); virtual time lets Leave's waits elapse; non-trivial = at least one non-default scheduling choice",
+		Rule:  "schedules: all interleavings up to the preemption bound (quick 3, thorough 4) of 2-3 threads each running a program of 1-3 lifecycle calls from {Join, Leave, Shutdown} (\"sleep\" = 1.5 s of virtual time, so that calls also start after earlier ones completed; \"sleep:<d>\" places a second call inside each phase of a running Leave: intent wait, wait inside memberlist.Leave, propagation delay; bound one less there) plus an observer thread reading State() every 400 ms of virtual time, on a real Serf node alone, with a peer known to Serf (so that the leave-intent broadcast wait is exercised), and with a silent peer known to memberlist (so that memberlist.Leave times out inside Serf.Leave); virtual time lets Leave's waits elapse; non-trivial = at least one non-default scheduling choice",
 		Assumptions: []string{
 			"inert real memberlist; a Join dial is refused by the transport (the join attempt itself is the observable effect)",
 			"'had begun before it was called' is applied in its weakest sound form: a Join called after a Leave/Shutdown returned, or after State() was observed to be past alive, must be refused",
@@ -69,6 +69,19 @@ func c34run(ctx *vc.Ctx) {
 	// still move forward only
 	for _, combo := range [][]string{{"leave", "shutdown"}, {"leave;leave", "sleep;shutdown"}, {"leave;join", "leave"}, {"join", "leave"}} {
 		c34explore(ctx, combo, 2, bound-1)
+	}
+	// a second call that begins in each phase of a running Leave: while it waits for its intent to go
+	// out (0-1 ms, when Serf knows a peer), while it is blocked inside memberlist.Leave (the next
+	// millisecond, when memberlist knows a peer), during the propagation delay (1 s), and after it
+	for _, peer := range []int{0, 1, 2} {
+		for _, off := range []string{"500us", "1500us", "500ms"} {
+			for _, op := range []string{"shutdown", "join", "leave", "shutdown;shutdown"} {
+				if op == "shutdown;shutdown" && off != "1500us" {
+					continue
+				}
+				c34explore(ctx, []string{"leave", "sleep:" + off + ";" + op}, peer, bound-2)
+			}
+		}
 	}
 }
 
@@ -119,6 +132,16 @@ func c34explore(ctx *vc.Ctx, combo []string, peer int, bound int) {
 				for _, c := range mine {
 					if c.op == "sleep" {
 						vsched.Sleep(int64(1500*time.Millisecond), "harness-sleep")
+						c.done = true
+						continue
+					}
+					if strings.HasPrefix(c.op, "sleep:") {
+						d, err := time.ParseDuration(c.op[6:])
+						if err != nil {
+							panic(err)
+						}
+						vsched.Sleep(int64(d), "harness-sleep")
+						c.op = "sleep"
 						c.done = true
 						continue
 					}
